@@ -183,7 +183,11 @@ impl Parser {
 
         match input.as_rule() {
             Rule::dot_function_call => {
-                let Some(function_type) = type_of_property.is_callable_allow_class(true) else {
+                // a class is called (constructed) through the module that exports it; a FIELD whose type is a
+                // class holds an instance, which is not callable
+                let lhs_is_module = matches!(lhs_ty, TypeLayout::Module(..));
+                let Some(function_type) = type_of_property.is_callable_allow_class(lhs_is_module)
+                else {
                     return Err(vec![new_err(
                         ident_span,
                         &source_name,
